@@ -124,6 +124,13 @@ def _writer(kind, n, tgt, src):
     if kind == "inline-nested":
         return [f"def stmt{n}(target, source):", '    return f"{vhdl:{target} <= {source!r};}"',
                 "@std.concurrent", f"def w{n}():", f"    st = stmt{n}({tgt}, {src})", '    f"{vhdl:{st}}"']
+    if kind == "match":
+        # the write sits inside a case-when of the emitted process
+        return ["@std.sequential(std.Clock(self.clk))", f"def w{n}():", "    nonlocal sig", "    match self.src[1:0]:", "        case '00':", f"            {tgt} <<= {src}", "        case '01':", "            pass",
+                "        case _:", f"            {tgt} <<= {src}"]
+    if kind == "coro":
+        # the write sits inside a state of a multi-state coroutine
+        return ["@std.sequential(std.Clock(self.clk))", f"async def w{n}():", "    nonlocal sig", "    await self.src[0]", f"    {tgt} <<= {src}", "    await self.pin[0]", f"    {tgt} <<= {src}"]
     if kind == "always":
         # always-expression of a sequential context that itself does not touch the target
         return [f"def aw{n}():", "    nonlocal sig", f"    {tgt} <<= {src}", "@std.sequential(std.Clock(self.clk))", f"def w{n}():", f"    cohdl.always(aw{n}())"]
@@ -133,7 +140,7 @@ def _writer(kind, n, tgt, src):
 def extra_programs():
     """(key, source, expected)"""
     out = []
-    kinds = ["core-push", "std-push", "std-next", "conc", "inline", "inline-nested", "always"]
+    kinds = ["core-push", "std-push", "std-next", "conc", "inline", "inline-nested", "always", "match", "coro"]
     for obj, t in (("signal", "sig"), ("outport", "self.q")):
         use = ["std.concurrent_assign(self.r[3:1], sig[3:1])"] if obj == "signal" else ["std.concurrent_assign(self.r[3:1], self.src[3:1])"]
         for k1, k2 in itertools.combinations_with_replacement(kinds, 2):
@@ -215,6 +222,11 @@ def extra_programs():
         out.append((f"x|nested{depth}:inst-output->inport", _x_entity([], nest(["Sub(i=self.src, o=self.pin)"], depth)), "reject"))
         out.append((f"x|nested{depth}:variable-in-two-sequential", _x_entity(["v = Variable[BitVector[4]](name='v')"], ["@std.sequential(std.Clock(self.clk))", "def a():", "    nonlocal v", "    v @= self.src", "    self.q <<= v"] +
                                                                           nest(["@std.sequential(std.Clock(self.clk))", "def b():", "    self.r <<= v"], depth)), "reject"))
+    # intermediate values of a process handed to an instance (the port map is emitted outside the process)
+    out.append(("x|temporary->always-instance-input", _x_entity([], ["@std.sequential(std.Clock(self.clk))", "def w():", "    t = self.src & self.pin", "    self.q <<= t", "    cohdl.always(Sub(i=t, o=self.r))"]), "reject"))
+    out.append(("x|temporary->leaked-inline-instance-input", _x_entity(["box = []"], ["@std.sequential(std.Clock(self.clk))", "def producer():", "    t = self.src ^ self.pin", "    std.as_pyeval(box.append, t)", "    self.q <<= t",
+                                                                               "@std.concurrent", "def consumer():", "    Sub(i=std.as_pyeval(box.__getitem__, 0), o=self.r)"]), "reject"))
+    out.append(("x|signal->always-instance-input", _x_entity([], ["@std.sequential(std.Clock(self.clk))", "def w():", "    nonlocal sig", "    sig <<= self.src & self.pin", "    self.q <<= sig", "    cohdl.always(Sub(i=sig, o=self.r))"]), "accept"))
     return out
 
 
